@@ -157,26 +157,27 @@ func TestCheck(t *testing.T) {
 	fmt.Printf("c20/sync: states=%d transitions=%d jobs=%d complete=%d merged=%d probes=%d rejected-with-error=%d restarts=%d crashes=%d crash-states=%d jumps=%d orders=%d stages=%d violations=%d (%.1fs)\n",
 		st.states.Get(), st.transitions.Get(), st.jobs.Get(), st.completed.Get(), st.merged.Get(), st.probes.Get(), st.rejected.Get(), st.restarts.Get(), st.crashes.Get(), st.crashStates.Len(), st.jumps.Get(), st.orders.Len(), st.stages.Len(), st.violations.Get(), r.Elapsed())
 	r.Finish(map[string]any{
-		"states":                        int(st.states.Get()),
-		"transitions":                   int(st.transitions.Get()),
-		"traces_validated_against_impl": int(st.jobs.Get()),
-		"complete_traces":               int(st.completed.Get()),
-		"traces_merged_into_known_state": int(st.merged.Get()),
-		"distinct_delivery_orders":      st.orders.Len(),
-		"wrong_data_probes":             int(st.probes.Get()),
-		"wrong_data_rejected_with_error": int(st.rejected.Get()),
-		"restarts":                      int(st.restarts.Get()),
-		"crash_points":                  int(st.crashes.Get()),
-		"distinct_crash_databases":      st.crashStates.Len(),
-		"state_jumps":                   int(st.jumps.Get()),
-		"outdated_point_refusals":       int(st.outdated.Get()),
-		"distinct_stage_getter_vectors": st.stages.Len(),
-		"configurations":                cfgNames,
-		"tries":                         trieInfo,
+		"states":                                    int(st.states.Get()),
+		"transitions":                               int(st.transitions.Get()),
+		"traces_validated_against_impl":             int(st.jobs.Get()),
+		"complete_traces":                           int(st.completed.Get()),
+		"traces_merged_into_known_state":            int(st.merged.Get()),
+		"distinct_delivery_orders":                  st.orders.Len(),
+		"wrong_data_probes":                         int(st.probes.Get()),
+		"wrong_data_rejected_with_error":            int(st.rejected.Get()),
+		"restarts":                                  int(st.restarts.Get()),
+		"crash_points":                              int(st.crashes.Get()),
+		"distinct_crash_databases":                  st.crashStates.Len(),
+		"state_jumps":                               int(st.jumps.Get()),
+		"outdated_point_refusals":                   int(st.outdated.Get()),
+		"nodes_not_closable_after_panic":            int(st.leaked.Get()),
+		"distinct_stage_getter_vectors":             st.stages.Len(),
+		"configurations":                            cfgNames,
+		"tries":                                     trieInfo,
 		"distinct_final_databases_per_source_point": finals,
-		"profile":                       ps[0].prof,
-		"events":                        "hdr(k headers | overlapping batch), node(x) for every currently unknown x, sub(x)=subtree answer of a peer, all(asc|desc), mix(good+corrupted), items(k | bad | gap | redo), blk (Module.AddBlock), pblk (Blockchain.AddBlock after the jump), flush, restart (same height | source tip), crash(i)=every new prefix of the batch log after each event (covers every stage batch of the state jump)",
-		"state_key":                     "stage getters (IsActive, IsInitialized, NeedHeaders, NeedStorageData, NeedBlocks), sync point, header height, block height, Module.BlockHeight, unknown-node set, digest of the raw database, restarts so far, last stored key (items mode)",
+		"profile":                                   ps[0].prof,
+		"events":                                    "hdr(k headers | overlapping batch), node(x) for every currently unknown x, sub(x)=subtree answer of a peer, all(asc|desc), mix(good+corrupted), items(k | bad | gap | redo), blk (Module.AddBlock), pblk (Blockchain.AddBlock after the jump), flush, restart (same height | source tip), crash(i)=every new prefix of the batch log after each event (covers every stage batch of the state jump)",
+		"state_key":                                 "stage getters (IsActive, IsInitialized, NeedHeaders, NeedStorageData, NeedBlocks), sync point, header height, block height, Module.BlockHeight, unknown-node set, digest of the raw database, restarts so far, last stored key (items mode)",
 	}, []string{
 		"equal state keys have equal futures: the part of the state that is only in memory is represented by the header height, the unknown-node set (which, for a fixed source trie, determines the restored set), the module's block height and the item stream position; the digest covers the flushed part",
 		"a corrupted trie node has another hash and is therefore not a requested node: the module ignores it (documented in restoreNode) - the oracle demands 'error or ignored' and an unchanged state for node data, an error for corrupted headers/blocks",
